@@ -304,10 +304,17 @@ class Ctx:
             verdict, secs, model, detail = self.st.prove_quick(goal)
             if verdict != "proved":
                 verdict, model, detail = "refuted", None, f"not re-examined in full: refuted on an earlier path ({seen[name]})"
+        elif name in self.unit.__dict__.setdefault("_unknown_names", {}) and not isinstance(goal, bool):
+            # left undecided on an earlier path of this unit: only the cheap attempt is repeated
+            verdict, secs, model, detail = self.st.prove_quick(goal)
+            if verdict != "proved":
+                detail = f"not re-examined in full: undecided on an earlier path ({self.unit._unknown_names[name]})"
         else:
             verdict, secs, model, detail = self.st.prove(goal)
             if verdict == "refuted":
                 seen[name] = "/".join(self.labels[-6:])
+            elif verdict == "unknown":
+                self.unit._unknown_names[name] = "/".join(self.labels[-6:])
         ob.verdict, ob.seconds, ob.backend = verdict, secs, (detail if verdict == "proved" else "z3")
         if verdict != "proved":
             ob.goal_txt = str(z3.simplify(goal))[:2000]
@@ -479,6 +486,10 @@ class Interp:
         ex = exc_classes()
         if name in ex:
             return ClassVal(name, pycls=ex[name])
+        # a module-level constant (`NAME = <int | float | str | bytes | bool | None literal>`, assigned once)
+        consts = [n for n in mod.tree.body if isinstance(n, (ast.Assign, ast.AnnAssign)) and any(isinstance(t, ast.Name) and t.id == name for t in (n.targets if isinstance(n, ast.Assign) else [n.target]))]
+        if len(consts) == 1 and isinstance(consts[0].value, ast.Constant):
+            return consts[0].value.value
         raise Unsupported(f"unresolved name {name} in {modpath}")
 
     def lookup(self, name, env, modpath):
